@@ -431,12 +431,21 @@ func runC18(c *Ctx, w *World, r *Report) {
 							bad = "errOffset is returned on an edge other than new-base <= -1"
 						}
 					case "iohelper.errWhence":
-						nfalse := 0
+						// whence is excluded from each of the three valid values: `whence == k` false (switch default) or
+						// `whence != k` true (an up-front guard), for three different k
+						excluded := map[int64]bool{}
 						for _, cd := range fa.Conds(ret.Block()) {
-							if bo, ok := cd.V.(*ssa.BinOp); ok && bo.Op == token.EQL && !cd.Pol && stripConv(bo.X) == whence {
-								nfalse++
+							bo, ok := cd.V.(*ssa.BinOp)
+							if !ok || !(bo.Op == token.EQL && !cd.Pol || bo.Op == token.NEQ && cd.Pol) {
+								continue
+							}
+							for _, side := range [2][2]ssa.Value{{bo.X, bo.Y}, {bo.Y, bo.X}} {
+								if k, isK := constInt64(stripConv(side[1])); isK && stripConv(side[0]) == whence {
+									excluded[k] = true
+								}
 							}
 						}
+						nfalse := len(excluded)
 						if nfalse < 3 {
 							bad = "errWhence is returned although whence may be one of the three valid values"
 						}
